@@ -57,6 +57,9 @@ var extraSyms = []sym{
 	{Name: "SET_PARAMETER", Method: base.SetParameter},
 	{Name: "SETUP0-play-mcast", Method: base.Setup, Track: 0, Proto: "mcast"},
 	{Name: "SETUP1-play-mcast", Method: base.Setup, Track: 1, Proto: "mcast"},
+	// track id = number of medias: a media that does not exist (boundary of the track lookup)
+	{Name: "SETUP2-play-tcp", Method: base.Setup, Track: 2, Proto: "tcp"},
+	{Name: "SETUP2-rec-tcp", Method: base.Setup, Track: 2, Record: true, Proto: "tcp"},
 }
 
 type sessVar int
@@ -177,7 +180,7 @@ func (m *model) predict(s sym, sv sessVar, sessionKnown bool) (expect, int) {
 		return mustFail, m.state
 
 	case base.Setup:
-		if !has(base.Setup) {
+		if !has(base.Setup) || s.Track >= len(m.tracks) {
 			return mustFail, m.state
 		}
 		offered := true
